@@ -36,9 +36,12 @@ class Register(Operand):
     @property
     def cstruct(self):
         self._assert_types()
-        if not 0 <= self.index < 2**encoding.REG_INDEX_BITS:
+        # An instance of an int subclass can carry its value in `__int__` (a resolved
+        # Future): check and encode that value, not the raw int ctypes would read.
+        index = int(self.index)
+        if not 0 <= index < 2**encoding.REG_INDEX_BITS:
             raise OverflowError(f"register index {self.index} cannot be encoded")
-        return encoding.Register(self.name.value, self.index)
+        return encoding.Register(self.name.value, index)
 
     def __bytes__(self):
         return bytes(self.cstruct)
@@ -62,8 +65,9 @@ class Address(Operand):
     @property
     def cstruct(self):
         self._assert_types()
-        encoding.assert_fits(self.address, encoding.ADDRESS)
-        return encoding.Address(self.address)
+        address = int(self.address)
+        encoding.assert_fits(address, encoding.ADDRESS)
+        return encoding.Address(address)
 
     def __bytes__(self):
         return bytes(self.cstruct)
